@@ -26,6 +26,8 @@ pub mod responder;
 mod rpc_errors;
 pub mod tls;
 #[cfg(feature = "verif-hooks")]
+pub mod verif_sync;
+#[cfg(feature = "verif-hooks")]
 pub mod tx_index;
 #[cfg(not(feature = "verif-hooks"))]
 mod tx_index;
